@@ -353,6 +353,12 @@ impl Facts {
         }
     }
 
+    /// Verification hook: number of undo frames currently open (read-only).
+    #[cfg(feature = "verif-hooks")]
+    pub fn verif_undo_depth(&self) -> usize {
+        self.undo_frames.read().unwrap().len()
+    }
+
     /// Record prior state for a top-level key if an undo frame is active
     fn record_undo_for_key(&self, key: &str) {
         let mut frames = self.undo_frames.write().unwrap();
